@@ -40,3 +40,48 @@ package functions
 //@   ensures [C16.gate-mask] forall(t, 0, trigger.len, outgoing.at(t) == ite(trigger.at(t) > 0, incoming.at(t), 0.0))
 //@   loop 0 invariant 0 <= day && day <= n
 //@   loop 0 invariant forall(t, 0, day, outgoing.at(t) == ite(trigger.at(t) > 0, incoming.at(t), 0.0))
+
+// ---- C19: date generator against an independent day-number algorithm ----
+// dfc = days_from_civil (proleptic Gregorian day number, up to a constant):
+// 365*y' + y'/4 - y'/100 + y'/400 + (153*m' + 2)/5 + d - 1 with the year
+// starting in March (y' = y-1 and m' = m+9 for January/February).
+
+//@ spec dfcY(y int, m int) int = ite(m <= 2, y-1, y)
+//@ spec dfcM(m int) int = ite(m > 2, m-3, m+9)
+//@ spec dfc(y int, m int, d int) int = 365*dfcY(y,m) + div(dfcY(y,m),4) - div(dfcY(y,m),100) + div(dfcY(y,m),400) + div(153*dfcM(m)+2, 5) + d - 1
+//@ spec leap(y int) bool = mod(y,4) == 0 && (mod(y,100) != 0 || mod(y,400) == 0)
+//@ spec dim(m int, y int) int = ite(m == 2, ite(leap(y), 29, 28), ite(m == 4 || m == 6 || m == 9 || m == 11, 30, 31))
+//@ spec validDate(y int, m int, d int) bool = y >= 1 && 1 <= m && m <= 12 && 1 <= d && d <= dim(m,y)
+
+//@ lemma [C19.lemma-H-injective] foralli(y1, foralli(m1, foralli(d1, foralli(y2, foralli(m2, foralli(d2, implies(validDate(y1,m1,d1) && validDate(y2,m2,d2) && dfc(y1,m1,d1) == dfc(y2,m2,d2), y1 == y2 && m1 == m2 && d1 == d2)))))))
+//@ lemma [C19.lemma-successor] foralli(y, foralli(m, foralli(d, implies(validDate(y,m,d), ite(d < dim(m,y), validDate(y,m,d+1) && dfc(y,m,d+1) == dfc(y,m,d)+1, ite(m < 12, validDate(y,m+1,1) && dfc(y,m+1,1) == dfc(y,m,d)+1, validDate(y+1,1,1) && dfc(y+1,1,1) == dfc(y,m,d)+1))))))
+
+//@ func leapYear(y) returns (r)
+//@   safety C19
+//@   requires y >= 0
+//@   ensures [C19.leap] r == leap(y)
+
+//@ func daysInMonth(month, year) returns (r)
+//@   safety C19
+//@   requires 1 <= month && month <= 12 && year >= 0
+//@   ensures [C19.days-in-month] r == dim(month, year)
+
+//@ func _dayOfYear(d, m, y) returns (r)
+//@   safety C19
+//@   requires validDate(y, m, d)
+//@   ensures [C19.day-of-year] r == dfc(y,m,d) - dfc(y,1,1) + 1
+//@   loop 0 invariant 1 <= mi && mi <= m && doy == dfc(y,mi,1) - dfc(y,1,1)
+
+//@ func dateGenerator(tick, startDate, startMonth, startYear, date, month, year, dayOfYear)
+//@   noalias
+//@   safety C19
+//@   requires tick.len == date.len && tick.len == month.len && tick.len == year.len && tick.len == dayOfYear.len
+//@   requires startDate == real(int(startDate)) && startMonth == real(int(startMonth)) && startYear == real(int(startYear))
+//@   requires validDate(int(startYear), int(startMonth), int(startDate))
+//@   assigns date.cells, month.cells, year.cells, dayOfYear.cells
+//@   loop 0 invariant 0 <= i && i <= n
+//@   loop 0 invariant [C19.valid] validDate(y, m, d)
+//@   loop 0 invariant [C19.day-number] dfc(y,m,d) == dfc(int(startYear), int(startMonth), int(startDate)) + i
+//@   loop 0 step [C19.emit-date] date.at(i) == real(pre(d)) && month.at(i) == real(pre(m)) && year.at(i) == real(pre(y))
+//@   loop 0 step [C19.emit-doy] dayOfYear.at(i) == real(dfc(pre(y),pre(m),pre(d)) - dfc(pre(y),1,1) + 1)
+//@   loop 0 step [C19.frame] forall(t, 0, i, date.at(t) == pre(date.at(t)) && month.at(t) == pre(month.at(t)) && year.at(t) == pre(year.at(t)) && dayOfYear.at(t) == pre(dayOfYear.at(t)))
